@@ -54,7 +54,13 @@ def neighbors_setup(C, path, A):
     LStar = Function('LStar', I, I, BoolSort())
     at = Atomic(C, bnot(A), path, C.n)
     Objects = lib.bitset_class(C, 'Objects')
-    Objects.fields['doubleprime'] = C.closure_funcs()[('Objects', 'doubleprime')]
+    dp = C.closure_funcs()[('Objects', 'doubleprime')]
+
+    def doubleprime(p, args, kw):
+        r = dp.fn(p, args, kw)
+        p.ghost['doubleprime.call'] = (args[0], r)      # roles by data flow (robust against renamed locals)
+        return r
+    Objects.fields['doubleprime'] = FuncV(dp.name, doubleprime)
     Objects.fields['atomic'] = FuncV('Objects.atomic', lambda p, args, kw: at.iterv('Objects'))
     return LStar, at, Objects
 
@@ -70,11 +76,23 @@ def _neighbors_unit():
             env = {'objects': IntV(A, 'Objects'), 'Objects': Objects}
             h = Int('h')
 
+            # role `minimal`: the only int variable modified in the loop body (read off the real AST)
+            import ast as _ast
+            from pyvc import extract as _x
+            _fn = _x.get_function('concepts/algorithms/lindig.py', 'neighbors').node
+            _loop = [n for n in _ast.walk(_fn) if isinstance(n, _ast.For)][0]
+            _mods = sorted({n.target.id for n in _ast.walk(_loop) if isinstance(n, _ast.AugAssign) and isinstance(n.target, _ast.Name)})
+            if len(_mods) != 1:
+                from pyvc.engine import Unsupported
+                raise Unsupported('expected exactly one augmented-assigned variable (the candidate mask) in the loop of neighbors')
+            path.ghost['minimal.term'] = lambda e, _n=_mods[0]: getattr(e, _n)
+
             def inv(e, k):
+                minimal = path.ghost['minimal.term'](e)
                 return [('minimal', ForAll([h], Implies(And(0 <= h, h < C.n),
-                                                        bit(e.minimal, h) == And(Not(bit(A, h)),
-                                                                                 Or(at.rank(h) >= k, LStar(A, h)))),
-                                           patterns=[bit(e.minimal, h)]))]
+                                                        bit(minimal, h) == And(Not(bit(A, h)),
+                                                                               Or(at.rank(h) >= k, LStar(A, h)))),
+                                           patterns=[bit(minimal, h)]))]
             spec = LoopSpec(inv)
 
             def yields(e, k):
@@ -86,8 +104,10 @@ def _neighbors_unit():
             def use_lindig(p, e):
                 # use lemma L-LINDIG(A, g, minimal) -- lemmas/Lindig.lean: lindig_step -- before the `if`
                 gi = at.pos(p.ghost['k'])
-                AG = e.objects_and_add
-                E = e.extent
+                # roles: AG = the argument of this iteration's doubleprime call, E = the first component of its result
+                arg, res = p.ghost['doubleprime.call']
+                AG, E = arg.t, res.items[0].t
+                minimal = p.ghost['minimal.term'](e)
                 p.oblige('lemma.use/L-LINDIG/closed', 'lemma.use', C.Cl(A) == A)
                 p.oblige('lemma.use/L-LINDIG/g-not-in-A', 'lemma.use', And(0 <= gi, gi < C.n, Not(bit(A, gi))))
                 p.oblige('lemma.use/L-LINDIG/AG', 'lemma.use',
@@ -95,15 +115,16 @@ def _neighbors_unit():
                 p.oblige('lemma.use/L-LINDIG/E', 'lemma.use', E == C.Cl(AG))
                 p.oblige('lemma.use/L-LINDIG/hmin', 'lemma.use',
                          ForAll([h], Implies(And(0 <= h, h < C.n),
-                                             bit(e.minimal, h) == And(Not(bit(A, h)), Or(h >= gi, LStar(A, h)))),
-                                patterns=[bit(e.minimal, h)]))
+                                             bit(minimal, h) == And(Not(bit(A, h)), Or(h >= gi, LStar(A, h)))),
+                                patterns=[bit(minimal, h)]))
                 none_in_min = ForAll([h], Implies(And(0 <= h, h < C.n),
-                                                  Not(And(bit(E, h), Not(bit(AG, h)), bit(e.minimal, h)))),
+                                                  Not(And(bit(E, h), Not(bit(AG, h)), bit(minimal, h)))),
                                      patterns=[bit(E, h)])
                 p.assume(none_in_min == LStar(A, gi))
 
             loops = {'int_methods': lib.int_methods(C), 'globals': lib.builtins(), 0: spec,
                      'before': {'If#0': use_lindig}}
+            # (the hook is attached to the first `if` of the body whichever way round its branches are written)
             return env, loops, finish
 
         def finish(path, env, outcome):
